@@ -30,11 +30,15 @@ pub struct AddSpec {
     pub rem: u16,
     /// `CacheControl::Expires(ns)` (u64::MAX = Duration::MAX); harness only
     pub cc: Option<u64>,
+    /// fault schedule of a stream source (empty: buffer source)
+    pub faults: Vec<u64>,
+    /// EMPTY object with RaptorQ ('Q') / Raptor ('R') and `n_sym` parity symbols (harness token; model: n_sym packets)
+    pub rateless: Option<char>,
 }
 
 impl AddSpec {
     pub fn simple(prio: u32, n_sym: u64) -> AddSpec {
-        AddSpec { prio, n_sym, maxc: 1, car: None, start: None, target: None, allow: false, e: 4, bl: 64, rem: 4, cc: None }
+        AddSpec { prio, n_sym, maxc: 1, car: None, start: None, target: None, allow: false, e: 4, bl: 64, rem: 4, cc: None, faults: Vec::new(), rateless: None }
     }
     pub fn line(&self) -> String {
         let (ck, cd) = match self.car {
@@ -46,7 +50,13 @@ impl AddSpec {
             None => ('n', 0),
             Some((k, d)) => (k, d),
         };
-        let cc = self.cc.map(|x| format!(" x{}", x)).unwrap_or_default();
+        let mut cc = self.cc.map(|x| format!(" x{}", x)).unwrap_or_default();
+        if let Some(k) = self.rateless {
+            cc.push_str(&format!(" {}{}", k, self.n_sym));
+        }
+        if !self.faults.is_empty() {
+            cc.push_str(&format!(" F{}", self.faults.iter().map(|x| x.to_string()).collect::<Vec<_>>().join(",")));
+        }
         format!(
             "sched add {} {} {} {} {} {} {} {} {} {} {} {}{}",
             self.prio,
@@ -362,7 +372,7 @@ fn rand_add(rng: &mut Rng, cfg: &NewSpec, now: u64, step: u64) -> AddSpec {
         10 => Some(('t', now + rng.range(0, 30) * step + rng.below(3))),
         _ => Some(('t', now.saturating_sub(rng.range(0, 5) * step))),
     };
-    AddSpec { prio, n_sym, maxc, car, start, target, allow: rng.chance(1, 3), e, bl, rem: rng.range(1, e as u64) as u16, cc: if rng.chance(1, 12) { Some(u64::MAX) } else { None } }
+    AddSpec { prio, n_sym, maxc, car, start, target, allow: rng.chance(1, 3), e, bl, rem: rng.range(1, e as u64) as u16, cc: if rng.chance(1, 12) { Some(u64::MAX) } else { None }, faults: Vec::new(), rateless: None }
 }
 
 fn random_case(r: &mut Runner, rng: &mut Rng, id: &str) {
@@ -973,6 +983,91 @@ fn era1_and_paced2_cases(r: &mut Runner) {
     }
 }
 
+/// EMPTY objects sent with a rateless codec from a buffer: one transfer = `parity` repair packets of the empty block
+/// (finding benc-3); the model takes the packet count of one transfer as input (nSym of the op line)
+fn empty_rateless_cases(r: &mut Runner) {
+    let mut i = 0;
+    for full in [true, false] {
+        for kind in ['Q', 'R'] {
+            for parity in [1u64, 2, 3] {
+                for maxc in [1u32, 3] {
+                    for car in [None, Some((false, 20 * MS))] {
+                        i += 1;
+                        r.begin(&format!("emptyrateless-{}", i));
+                        let cfg = NewSpec { full, fdt_car: (false, S), fdt_dur: 3600 * S, start_id: 1, il: 1, efdt: 1400, fits: true, queues: vec![(0, 1 + (i % 2) as u32)] };
+                        r.op(cfg.line());
+                        let mut a = AddSpec::simple(0, parity);
+                        a.maxc = maxc;
+                        a.car = car;
+                        a.rateless = Some(kind);
+                        a.e = 16;
+                        a.rem = 16;
+                        r.op(a.line());
+                        r.op(AddSpec::simple(0, 2).line());
+                        r.op(format!("sched publish {}", r.now));
+                        for k in 0..6u64 {
+                            r.read_until_none(5000);
+                            if r.dead {
+                                break;
+                            }
+                            r.op("sched nb_transfers 1".into());
+                            if k == 4 && car.is_some() {
+                                r.op("sched remove 1".into());
+                            }
+                            r.now += 15 * MS;
+                        }
+                        r.drain();
+                        r.finish();
+                    }
+                }
+            }
+        }
+    }
+}
+
+/// stream sources whose transfer attempts FAIL TO START (the rewind or the first read fails), in the main flow: compared
+/// with the Lean model (`AddArgs.faults`): both publish modes, 1-3 attempts, carousel or not, with a healthy peer in the
+/// same / a lower priority queue, multiplex 1-2, removal in between
+fn fault_model_cases(r: &mut Runner) {
+    let mut i = 0;
+    for full in [true, false] {
+        for mux in [1u32, 2] {
+            for maxc in [1u32, 2, 3] {
+                for car in [None, Some((false, 20 * MS))] {
+                    for faults in [vec![0u64], vec![1], vec![0, 0], vec![1, 0], vec![0, 1, 1], vec![7, 7, 0], vec![0, 9, 0, 9]] {
+                        i += 1;
+                        r.begin(&format!("faultmodel-{}", i));
+                        let cfg = NewSpec { full, fdt_car: (false, S), fdt_dur: 3600 * S, start_id: 1, il: 1 + (i % 2) as u8, efdt: 1400, fits: true, queues: vec![(0, mux), (3, 1)] };
+                        r.op(cfg.line());
+                        let mut a = AddSpec::simple(0, 3);
+                        a.maxc = maxc;
+                        a.car = car;
+                        a.faults = faults.clone();
+                        r.op(a.line());
+                        r.op(AddSpec::simple(0, 2).line());
+                        r.op(AddSpec::simple(3, 2).line());
+                        r.op(format!("sched publish {}", r.now));
+                        for k in 0..8u64 {
+                            r.read_until_none(5000);
+                            if r.dead {
+                                break;
+                            }
+                            r.op("sched nb_transfers 1".into());
+                            r.op("sched nb_objects".into());
+                            if k == 5 && car.is_some() {
+                                r.op("sched remove 1".into());
+                            }
+                            r.now += 15 * MS;
+                        }
+                        r.drain();
+                        r.finish();
+                    }
+                }
+            }
+        }
+    }
+}
+
 /// stream sources whose seek / read fails after the object was added (engine-only oracle, see probe.rs):
 /// seek failure at the k-th transfer start, transient and permanent, read failure inside a transfer
 fn stream_fault_cases(r: &mut Runner) {
@@ -1018,6 +1113,8 @@ pub fn run(ctx: &mut Ctx, _eng: &mut dyn Engine) {
     removal2_cases(&mut r);
     clock_back_cases(&mut r);
     huge_cases(&mut r);
+    fault_model_cases(&mut r);
+    empty_rateless_cases(&mut r);
     stream_fault_cases(&mut r);
     pace_probe_cases(&mut r);
     window_probe_cases(&mut r);
